@@ -84,6 +84,27 @@ PROPS["C17"] = dict(
     ],
 )
 
+PROPS["C16"] = dict(
+    level="exploration",
+    technique="property-based testing (rapid): data-first generation, encoding in every RESP2/RESP3 reply shape by an independent encoder, decode + accessor must reproduce the data",
+    level_text="For each accessor family the modelled data is generated, encoded in each server shape, decoded by the real decoder and compared field by field (NaN-aware, last-wins for string maps, order preserved for slices).",
+    level_note="Reply shapes are reconstructed from the Redis/RediSearch documentation; RESP2 FT.SEARCH NOCONTENT results are excluded from per-doc comparison because the RESP2 reply is ambiguous by design. " + LIMITS,
+    units=[
+        U("inpkg", "rueidis", "TestVerif_C16_Accessors", T(10000), T(60000, shards=16)),
+    ],
+)
+
+PROPS["C15"] = dict(
+    level="exploration",
+    technique="property-based testing (rapid): every accessor found by reflection applied under recover to decoder-produced trees, to mutated valid helper shapes and to generated error texts; exhaustive over all prefixes of a redirect-text dictionary; native Go fuzzing (thorough)",
+    level_text="All exported accessors and classifiers are enumerated by reflection (new ones are picked up automatically) and applied to generated trees that went through the real decoder; oracle is no panic plus nil/error/wrong-shape propagation.",
+    level_note="Wrong-shape => parse error is asserted only for the unambiguous accessor x type matrix in c15_test.go; structured helpers on a wrong shape may return an error or a well-formed value. " + LIMITS,
+    units=[
+        U("inpkg", "rueidis", "TestVerif_C15_ErrorClassifiers", T(5000), T(100000, shards=4)),
+        U("inpkg", "rueidis", "TestVerif_C15_Accessors", T(6000), T(60000, shards=16)),
+    ],
+)
+
 # ---- END PROPS (new entries go above this line)
 
 # every property without a check is listed here with its reason (kept current while building)
